@@ -362,8 +362,9 @@ fn run_kernels(ctx: &mut Ctx, rng: &mut Rng) {
                     let got = match catch(|| (kern.f)(a, b)) {
                         Ok(g) => g,
                         Err(p) => {
-                            viol(ctx, 
-                                "kernel_no_panic",
+                            viol(
+                ctx,
+                "kernel_no_panic",
                                 &format!("C24/kernel_no_panic/{}/{}", kern.name, panic_cause(&p)),
                                 json!({"kernel": kern.name, "n": n, "class": CLASS_NAMES[class as usize], "panic": p, "a": a, "b": b}),
                             );
@@ -374,8 +375,9 @@ fn run_kernels(ctx: &mut Ctx, rng: &mut Rng) {
                         Expect::Within(want, tol) => {
                             let err = (got as f64 - want).abs();
                             if !(err <= tol) {
-                                viol(ctx, 
-                                    "kernel_within_rounding",
+                                viol(
+                ctx,
+                "kernel_within_rounding",
                                     &format!("C24/kernel_within_rounding/{}", kern.name),
                                     json!({"kernel": kern.name, "n": n, "class": CLASS_NAMES[class as usize], "got": format!("{:e}", got), "reference_f64": format!("{:e}", want),
                                            "abs_err": format!("{:e}", err), "tolerance": format!("{:e}", tol), "a": fmt_vec(a), "b": fmt_vec(b), "offsets": [oa, ob]}),
@@ -542,7 +544,9 @@ struct Table {
 }
 
 fn gen_table(rng: &mut Rng, idx: usize, metric: Metric, hnsw: Option<&'static str>, maxdim: usize, maxrows: usize) -> Table {
-    let d = if idx < maxdim { idx + 1 } else { rng.usize(1, maxdim) };
+    // every dimension 1..=maxdim once, in a scattered order (37 is coprime to 70) so that a run cut short by
+    // the time budget still spans the whole range
+    let d = if idx < maxdim { (idx * 37) % maxdim + 1 } else { rng.usize(1, maxdim) };
     let nrows = rng.usize(1, maxrows);
     let style = if rng.chance(1, 12) { STYLE_HUGE } else { rng.below(6) };
     let mut vecs: Vec<Vec<f32>> = Vec::with_capacity(nrows);
@@ -803,7 +807,8 @@ fn check_query(ctx: &mut Ctx, env: &mut SqlEnv, t: &Table, qs: &QuerySpec) -> bo
     let rows = match catch(|| db.query(&sql)) {
         Ok(Ok(r)) => r,
         Ok(Err(e)) => {
-            viol(ctx, 
+            viol(
+                ctx,
                 "query_ok",
                 &format!("C24/{}/query_ok/{}/{}/error{}", f, m.name(), lk, if huge { "/huge" } else { "" }),
                 json!({"sql": truncate(&sql, 1500), "err": truncate(&first_line(&e), 500), "case": table_json(t)}),
@@ -811,7 +816,8 @@ fn check_query(ctx: &mut Ctx, env: &mut SqlEnv, t: &Table, qs: &QuerySpec) -> bo
             return false;
         }
         Err(p) => {
-            viol(ctx, 
+            viol(
+                ctx,
                 "query_ok",
                 &format!(
                     "C24/{}/query_ok/{}/{}/panic/{}/{}",
@@ -872,8 +878,9 @@ fn check_query(ctx: &mut Ctx, env: &mut SqlEnv, t: &Table, qs: &QuerySpec) -> bo
     // --- row_count
     let want_rows = qs.limit.map(|k| k.min(n)).unwrap_or(n);
     if rows.len() != want_rows {
-        viol(ctx, 
-            "row_count",
+        viol(
+                ctx,
+                "row_count",
             &format!("C24/{}/row_count/{}/{}/{}", f, m.name(), lk, if rows.len() < want_rows { "too_few" } else { "too_many" }),
             detail(json!({"returned": rows.len(), "expected": want_rows, "table_rows": n, "limit": qs.limit}), &got),
         );
@@ -886,8 +893,9 @@ fn check_query(ctx: &mut Ctx, env: &mut SqlEnv, t: &Table, qs: &QuerySpec) -> bo
                 let want = model[id];
                 let ok = matches!(r.values.get(1), Some(OwnedValue::Vector(v)) if v.len() == want.len() && v.iter().zip(want.iter()).all(|(x, y)| x.to_bits() == y.to_bits() || (*x == 0.0 && *y == 0.0)));
                 if !ok {
-                    viol(ctx, 
-                        "vector_roundtrip",
+                    viol(
+                ctx,
+                "vector_roundtrip",
                         &format!("C24/{}/vector_roundtrip/{}", f, if huge { "huge" } else { "regular" }),
                         detail(json!({"id": id, "stored": lit(want), "returned": format!("{:?}", r.values.get(1))}), &got),
                     );
@@ -902,8 +910,9 @@ fn check_query(ctx: &mut Ctx, env: &mut SqlEnv, t: &Table, qs: &QuerySpec) -> bo
                     (Some(OwnedValue::Float(x)), Some(e)) => {
                         let tol = slack(m, t.d, *e, *e);
                         if !((x - e).abs() <= tol) {
-                            viol(ctx, 
-                                "distance_value",
+                            viol(
+                ctx,
+                "distance_value",
                                 &format!("C24/{}/distance_value/{}/{}/outside_rounding_bound", f, m.name(), lk),
                                 detail(json!({"id": id, "returned": x, "exact": e, "tolerance": tol}), &got),
                             );
@@ -913,8 +922,9 @@ fn check_query(ctx: &mut Ctx, env: &mut SqlEnv, t: &Table, qs: &QuerySpec) -> bo
                     (Some(OwnedValue::Null), None) => {}
                     (_, None) => {} // cosine with a zero vector: undocumented, anything goes
                     (other, Some(e)) => {
-                        viol(ctx, 
-                            "distance_value",
+                        viol(
+                ctx,
+                "distance_value",
                             &format!("C24/{}/distance_value/{}/{}/{}", f, m.name(), lk, if other.is_none() { "select_list_expression_column_missing" } else { "not_a_float" }),
                             detail(json!({"id": id, "returned": format!("{:?}", other), "exact": e, "columns": r.values.len()}), &got),
                         );
@@ -952,7 +962,8 @@ fn check_query(ctx: &mut Ctx, env: &mut SqlEnv, t: &Table, qs: &QuerySpec) -> bo
     let mut ordered = true;
     for (i, (id, d)) in ds.iter().enumerate() {
         if i > 0 && maxd > *d + slack(m, t.d, maxd, *d) {
-            viol(ctx, 
+            viol(
+                ctx,
                 "non_decreasing",
                 &format!("C24/{}/non_decreasing/{}/{}/{}", f, m.name(), lk, if got.iter().any(|g| g.1.is_none()) { "result_has_null_keys" } else { "no_null_keys" }),
                 detail(json!({"position": i, "id": id, "exact_distance": d, "earlier_id": maxid, "earlier_exact_distance": maxd, "slack": slack(m, t.d, maxd, *d)}), &got),
@@ -979,8 +990,9 @@ fn check_query(ctx: &mut Ctx, env: &mut SqlEnv, t: &Table, qs: &QuerySpec) -> bo
             r.sort_by(|a, b| a.0.partial_cmp(&b.0).unwrap());
             for j in 0..r.len() {
                 if r[j].0 > all[j] + slack(m, t.d, r[j].0, all[j]) {
-                    viol(ctx, 
-                        "k_smallest",
+                    viol(
+                ctx,
+                "k_smallest",
                         &format!("C24/{}/k_smallest/{}", f, m.name()),
                         detail(json!({"k": kq, "rank": j, "returned_id": r[j].1, "returned_exact_distance": r[j].0, "rank_th_smallest_exact_distance": all[j], "slack": slack(m, t.d, r[j].0, all[j])}), &got),
                     );
@@ -1206,7 +1218,7 @@ pub fn run(a: &Args) -> i32 {
     let mut rng = Rng::derive(a.seed, 24);
     run_kernels(&mut ctx, &mut rng);
     if !miri {
-        let budget = if ctx.quick() { 40.0 } else { 400.0 };
+        let budget = if ctx.quick() { 36.0 } else { 400.0 };
         run_sql(&mut ctx, &mut rng, budget);
     } else {
         ctx.assumptions.push("under Miri only the kernel level runs (no files/mmap)".into());
